@@ -96,7 +96,7 @@ void h_bt_equal_u8(void) { SETUP; size_t n = nondet_size(); __CPROVER_assume(n <
 """
 
 UNITS = [
-    dict(name='read_access', extracts=RA_EX, code=RA_CODE, defines=['BT_NEED_COPY', 'BT_COPY_BODY', 'BT_BYTES_MAX=600'], thorough_defines=['VAL_MAX=512'], object_bits=10, replay=dict(src='replay/c06_replay.cpp'),
+    dict(name='read_access', extracts=RA_EX, code=RA_CODE, defines=['BT_NEED_COPY', 'BT_COPY_BODY', 'BT_BYTES_MAX=600', 'VAL_MAX=300'], thorough_defines=['VAL_MAX=600'], object_bits=10, replay=dict(src='replay/c06_replay.cpp'),
          extra_loops=2,
          enforce=['attribute_value_read_access', 'attribute_value_read_only_access', 'bt_copy_u8', 'bt_equal_u8'],
          replace=['attribute_value_read_access', 'bt_copy_u8', 'bt_equal_u8']),
@@ -177,7 +177,7 @@ void h_bind_read_false(void) { SETUP; struct attribute_access_arguments* a; bind
 void h_bind_write_true(void) { SETUP; struct attribute_access_arguments* a; bind_write_true(a); BT_CANARY(); }
 void h_bind_write_false(void) { SETUP; struct attribute_access_arguments* a; bind_write_false(a); BT_CANARY(); }
 """
-UNITS.append(dict(name='bind_value', replay=dict(src='replay/c06_replay.cpp'), extracts=BIND_EX, code=BIND_CODE, defines=['BT_NEED_COPY', 'BT_BYTES_MAX=600'], thorough_defines=['VAL_MAX=512'], object_bits=10,
+UNITS.append(dict(name='bind_value', replay=dict(src='replay/c06_replay.cpp'), extracts=BIND_EX, code=BIND_CODE, defines=['BT_NEED_COPY', 'BT_BYTES_MAX=600'], thorough_defines=['VAL_MAX=300'], object_bits=10,
          enforce=['bind_value_access', 'bind_read_true', 'bind_read_false', 'bind_write_true', 'bind_write_false'],
          replace=['attribute_value_read_access', 'bt_copy_u8', 'bind_read_true', 'bind_read_false', 'bind_write_true', 'bind_write_false', 'enc_check_true', 'enc_check_false']))
 
@@ -234,7 +234,7 @@ __CPROVER_assigns(W_type == attribute_access_type_read && !ENC_REFUSED(args): __
 void h_fixed_value_access(void) { SETUP; struct attribute_access_arguments* a; fixed_value_access(a, nondet_size()); BT_CANARY(); }
 void h_cstring_value_access(void) { SETUP; struct attribute_access_arguments* a; cstring_value_access(a, nondet_size()); BT_CANARY(); }
 """
-UNITS.append(dict(name='fixed_values', extracts=FIXED_EX, code=FIXED_CODE, defines=['BT_NEED_COPY', 'BT_BYTES_MAX=600'], thorough_defines=['VAL_MAX=512'], object_bits=10,
+UNITS.append(dict(name='fixed_values', extracts=FIXED_EX, code=FIXED_CODE, defines=['BT_NEED_COPY', 'BT_BYTES_MAX=600', 'VAL_MAX=300'], thorough_defines=['VAL_MAX=600'], object_bits=10,
          enforce=['fixed_value_access', 'cstring_value_access'],
          replace=['bt_copy_u8', 'enc_check_true', 'enc_check_false']))
 
